@@ -227,8 +227,6 @@ def gen_history(rng, pname, nops, front):
     p = PROFILES[pname]
     names = list(p["names"])
     vl = vlens_for(p)
-    if front == "debugfs":
-        vl = [v for v in vl if v <= BS]          # `ea_set -f` reads at most one block of the value file
     edge = [v for v in vl if v > 4]
     ops = []
     present = set([DATA] if p["inline"] else [])
@@ -689,7 +687,6 @@ def run(tier):
             "system.posix_acl_access is written through a RAW handle (the cooked path converts ACL encodings and is not modelled)",
             "the filesystem has free blocks and inodes for every value inode (allocation failure paths are not explored)",
             "the peer inode's reference to the block is created with the public API (h_refcount + 1, i_file_acl, i_blocks), the state the kernel's mbcache produces",
-            "debugfs `ea_set -f` histories use values of at most one block",
             "consistency oracle = `e2fsck -fn` exit 0 at the end of each history",
         ]
         return vd.finish()
